@@ -228,6 +228,20 @@ pub fn run(ctx: &Ctx, rep: &Report) -> Meta {
     let cases = ctx.tier.pick(400, 4000);
     let tier = ctx.tier;
     run_cases(ctx, rep, "sign-verify", cases, 400, || strat(tier), |c| check(rep, "sign-verify", c));
+    // every message count in a contiguous range (sizes at which a fast path / buffer / cache may switch)
+    let sweep: Vec<Case> = (0..=ctx.tier.pick(130usize, 520usize))
+        .map(|l| Case {
+            suite: if l % 2 == 0 { SuiteId::Sha256 } else { SuiteId::Shake256 },
+            key: KeySpec { fixture: false, ikm: BSpec { len: 32, class: 0, seed: (ctx.seed as u32).wrapping_add(l as u32) }, key_info: OptBytes::None, key_dst: OptBytes::None },
+            header: [OptBytes::None, OptBytes::Bytes(BSpec { len: 16, class: 0, seed: 1 }), OptBytes::Empty][l % 3].clone(),
+            msgs: MsgVec { items: (0..l).map(|j| BSpec { len: [4usize, 0, 33][j % 3], class: 0, seed: (l * 1000 + j) as u32 }).collect() },
+            msgs_none: false,
+        })
+        .collect();
+    par_items(ctx, rep, "size-sweep", &sweep, |c| check(rep, "size-sweep", c));
+    if !rep.aborted() {
+        rep.exhaustive(format!("every message count L in 0..={}", ctx.tier.pick(130, 520)));
+    }
     let b = boundary_cases(ctx.tier);
     par_items(ctx, rep, "boundary", &b, |c| check(rep, "boundary", c));
     Meta {
